@@ -6,7 +6,7 @@ Import ListNotations.
 Local Open Scope N_scope.
 
 (* ------------------------------------------------------------------ tables of namespace InstDB *)
-Record inst_row := { ir_a : N; ir_b : N; ir_addl : N; ir_avx512 : N }.
+Record inst_row := { ir_a : N; ir_b : N; ir_addl : N; ir_avx512 : N; ir_cflags : N (* CommonInfo::_flags *) }.
 Record addl_row := { ad_iflags : N; ad_rwflags : N; ad_feat : list N }.
 Record rw_row := { rr_cat : N; rr_rm : N; rr_ops : list N }.
 Record rw_op_row := { or_r : N; or_w : N; or_phys : N; or_clc : N; or_flags : N }.
@@ -16,7 +16,7 @@ Record tables := {
   t_rwa : list rw_row; t_rwb : list rw_row; t_op : list rw_op_row; t_rm : list rm_row;
   t_ternlog : list N (* Inst::kIdVpternlogd/q *) }.
 
-Definition d_inst := {| ir_a := 0; ir_b := 0; ir_addl := 0; ir_avx512 := 0 |}.
+Definition d_inst := {| ir_a := 0; ir_b := 0; ir_addl := 0; ir_avx512 := 0; ir_cflags := 0 |}.
 Definition d_addl := {| ad_iflags := 0; ad_rwflags := 0; ad_feat := [] |}.
 Definition d_rw := {| rr_cat := 0; rr_rm := 0; rr_ops := [] |}.
 Definition d_op := {| or_r := 0; or_w := 0; or_phys := 255; or_clc := 0; or_flags := 0 |}.
@@ -24,7 +24,8 @@ Definition d_rm := {| rm_cat := 0; rm_ops := 0; rm_fixed := 0; rm_flags := 0; rm
 Definition nthN {A} (l : list A) (i : N) (d : A) : A := nth (N.to_nat i) l d.
 
 (* ------------------------------------------------------------------ operands *)
-(* OReg regtype id | OMem size base(0 = absolute 64-bit, 1 = label, 2 = register) index(0 = none, else a register kind) *)
+(* OReg regtype id | OMem size base(0 = absolute 64-bit, 1 = label, >= 2 = register) index(0 = none, else register kind + 100 * id;
+   kind 1 = native GP, 11/12/13 = xmm/ymm/zmm) *)
 Inductive operand := ONone | OReg (rt id : N) | OMem (size base index : N) | OImm (v : Z) | OLabel.
 
 (* RegTraits of asmjit/core/operand.h for the x86 register types (checked against the build by the harness "T" line) *)
